@@ -115,6 +115,17 @@ func (i *uint64InternalNode) count() int { return len(i.runts) }
 
 func (i *uint64InternalNode) deleteKey(minSize int, key uint64) bool {
 	index := uint64SearchLessThanOrEqualTo(key, i.runts)
+	var leftSibling, rightSibling uint64Node
+	var leftCount, rightCount int
+
+	if index > 0 {
+		// Lock the left sibling before the child, so that siblings are always
+		// locked left to right, the same direction cursors traverse the leaves.
+		leftSibling = i.children[index-1]
+		leftSibling.lock()
+		defer leftSibling.unlock()
+	}
+
 	child := i.children[index]
 	child.lock()
 	defer child.unlock()
@@ -123,9 +134,6 @@ func (i *uint64InternalNode) deleteKey(minSize int, key uint64) bool {
 		return false
 	}
 	// POST: child is too small
-
-	var leftSibling, rightSibling uint64Node
-	var leftCount, rightCount int
 
 	if index < len(i.runts)-1 {
 		// try right sibling first to encourage left leaning trees
@@ -142,9 +150,6 @@ func (i *uint64InternalNode) deleteKey(minSize int, key uint64) bool {
 
 	if index > 0 {
 		// try left sibling
-		leftSibling = i.children[index-1]
-		leftSibling.lock()
-		defer leftSibling.unlock()
 		if leftCount = leftSibling.count(); leftCount > minSize {
 			child.adoptFromLeft(leftSibling)
 			i.runts[index] = child.smallest()
